@@ -13,6 +13,13 @@ Verdict(o) ==
      ELSE IF o.obs.full.acc # 1 THEN "complete-file-rejected"
      ELSE IF \E i \in 1..Len(o.obs.prefixes) : ~PrefixOK(o.obs.full, o.obs.prefixes[i]) THEN "partial-file-accepted-with-data-missing"
      ELSE "ok"
+  ELSE IF o.mode = "refused" THEN
+     \* an input refused part-way (o.valid = the records before the offending one, o.vchroms their chromosome table): whatever the
+     \* destination is left with is rejected by the readers, or serves the records it holds completely (the valid prefix, nothing else)
+     IF o.obs.result \notin {"ok", "err", "panic"} THEN "did-not-return"
+     ELSE IF o.obs.result # "err" THEN "ok"                      \* whether the input is refused at all is C13's business
+     ELSE IF o.obs.left.acc = 1 /\ o.obs.left.read # o.valid THEN "partial-file-accepted-after-refused-input"
+     ELSE "ok"
   ELSE \* fault: the k-th operation failed: the call must not report success (a panic is not success)
      IF o.obs.result \notin {"ok", "err", "panic"} THEN "did-not-return"
      ELSE IF o.obs.fired = 1 /\ o.obs.result = "ok" THEN "io-failure-reported-as-success"
